@@ -705,6 +705,8 @@ func assignsBody(text string) string {
 			fmt.Fprintf(&sb, "\tAssignsGhost(%s)\n", it[6:len(it)-1])
 		case strings.HasSuffix(it, "[:]"):
 			fmt.Fprintf(&sb, "\tAssignsElems(%s)\n", it[:len(it)-3])
+		case strings.HasSuffix(it, "[*]"):
+			fmt.Fprintf(&sb, "\tAssignsMap(%s)\n", it[:len(it)-3])
 		case strings.HasPrefix(it, "*"):
 			fmt.Fprintf(&sb, "\tAssignsAt(%s)\n", it[1:])
 		default:
